@@ -1160,7 +1160,17 @@ func (g *b09Gen) fillMsg(fi int, pl *b09MsgPlan) *b09N {
 					}
 				}
 			}
-			n := &b09N{K: 'm', A: []string{Pick(g.r, b09KeyTypes), vt, name, strconv.Itoa(g.number(mc)), "-"}}
+			kt := Pick(g.r, b09KeyTypes)
+			n := &b09N{K: 'm', A: []string{kt, vt, name, strconv.Itoa(g.number(mc)), "-"}}
+			if syn == "e" {
+				// features set on a map field are propagated to its synthetic key/value fields
+				if (kt == "string" || vt == "string") && g.r.Chance(1, 3) {
+					n.Opts = append(n.Opts, "features.utf8_validation = NONE")
+				}
+				if g.r.Chance(1, 3) {
+					n.Opts = append(n.Opts, "features.repeated_field_encoding = EXPANDED")
+				}
+			}
 			g.bind(n, 1)
 			if g.r.Chance(1, 8) {
 				n.Opts = append(n.Opts, "deprecated = true")
